@@ -510,7 +510,9 @@ func genCase(layer string) func(t *rapid.T) discCase {
 			case 0:
 				d = d[:rapid.IntRange(0, 63).Draw(t, "short")]
 			case 1:
-				d = append(d, make([]byte, rapid.SampledFrom([]int{1, 2, 64, 960}).Draw(t, "long"))...)
+				// (also longer than any receive buffer of 1024 / 2048 / 4096 bytes: what does not fit is cut off - a datagram of the
+				// wrong length like any other)
+				d = append(d, make([]byte, rapid.SampledFrom([]int{1, 2, 64, 960, 1984, 1985, 2500, 4032, 8000, 30000}).Draw(t, "long"))...)
 			case 2:
 				d[0] = rapid.SampledFrom([]byte{0x00, 0x16, 0x18, 0x19, 0xff}).Draw(t, "id")
 			case 3:
